@@ -251,6 +251,15 @@ def run(case, kind, seed=0, vec_limit=48, out_of_range=False, check_enum=True, e
             vecs.append(v)
     tags.append('vec-exhaustive=%d' % int(exhaustive))
     dq, dinfo = [], []
+    # the fast encoder's decode as a function (Greedy.fast_decode): compared "=" where the model applies -- no choice
+    # constraints, no connection choices, outside the known-finding classes (their mechanisms are not modelled)
+    fq, finfo = [], []
+    fast_vars = None
+    if kind == 'fast' and not case.get('cons') and not case.get('conn') and not dsgcase.guards(case):
+        declared = {e[1]: (j, e[2]) for j, e in enumerate(E) if e[0] == 'sel'}
+        order = sorted((sc['id'] for sc in case['sel']), key=lambda c: 'S%02d' % c)
+        fast_vars = [[c, list(declared[c][1]) if c in declared else list(b.opt_order[c])] for c in order]
+        fast_x = [(c, declared[c][0]) for c in order if c in declared]
     seen_out = {}
     inv = {}
     images = set()
@@ -279,6 +288,11 @@ def run(case, kind, seed=0, vec_limit=48, out_of_range=False, check_enum=True, e
                           [[n, q(v)] for n, v in dvv]]))
         dinfo.append((x, x2, act, nodes, dvv))
         images.add(tuple(nodes))
+        if fast_vars is not None and all(e[0] != 'sel' or (float(v).is_integer() and 0 <= v < len(e[2])) for v, e in zip(x, E)):
+            fq.append(sx(['fast_decode', True, mg, fast_vars,
+                          [int(x[dict(fast_x)[c]]) if c in dict(fast_x) else 0 for c, _ in fast_vars],
+                          [False] * len(fast_vars)]))
+            finfo.append((x, x2, act, nodes))
         # create=False path and idempotence
         try:
             _, x3, act3 = gp.get_graph(list(x), create=False)
@@ -292,6 +306,24 @@ def run(case, kind, seed=0, vec_limit=48, out_of_range=False, check_enum=True, e
                 fail('decode-not-idempotent', 'x=%s x\'=%s act=%s -> x\'\'=%s act=%s' % (x, x2, act, x4, list(act4)))
         except Exception as ex:
             fail('decode-raises-on-feasible-space:' + exc_sig(ex), 'x=%s (second decode): %s: %s' % (x, type(ex).__name__, ex))
+    if fast_vars is not None:
+        tags.append('fast-model-decodes=%s' % ('0' if not fq else '1-9' if len(fq) < 10 else '10+'))
+    for (x, x2, act, nodes), m in zip(finfo, run_dsgm(fq) if fq else []):
+        if is_model_error(m) or m == 'none':
+            fails.append({'clause': 'model-error', 'detail': sx(m), 'no_input': True})
+            continue
+        if m[1] == 'none':
+            fail('fast-decode-differs-from-model', 'x=%s: implementation x\'=%s nodes %s, the model finds no feasible vector' % (x, x2, nodes))
+            continue
+        imp, inst_m = m[1][1]
+        pos = dict(fast_x)
+        want_x = {pos[c]: (v if v >= 0 else 0) for (c, _), v in zip(fast_vars, imp) if c in pos}
+        want_a = {pos[c]: v >= 0 for (c, _), v in zip(fast_vars, imp) if c in pos}
+        got_x = {j: x2[j] for j in want_x}
+        got_a = {j: act[j] for j in want_a}
+        if got_x != want_x or got_a != want_a or sorted(inst_m) != list(nodes):
+            fail('fast-decode-differs-from-model', 'x=%s: implementation x\'=%s act=%s nodes %s; model x\'=%s act=%s nodes %s' % (
+                x, x2, act, nodes, [want_x.get(j) for j in range(len(E))], [want_a.get(j) for j in range(len(E))], sorted(inst_m)))
     wres = run_dsgm(dq) if dq else []
     for k, (x, x2, act, nodes, dvv) in enumerate(dinfo):
         w0, w1 = wres[2 * k], wres[2 * k + 1]
